@@ -2001,6 +2001,21 @@ pub fn apply(disk: &mut Disk, s: &Surgery) -> Result<(), String> {
             }
             Ok(())
         }
+        Surgery::ManyTables { count, len } => {
+            let body: Rc<Vec<u8>> = Rc::new((0..usize::from(*len)).map(|i| (i * 37 + 11) as u8).collect());
+            let digit = |v: usize| b"0123456789abcdefghijklmnopqrstuvwxyz"[v % 36];
+            let mut added = 0usize;
+            let mut i = 0usize;
+            while added < usize::from(*count) && i < 46000 {
+                let tag = u32::from_be_bytes([b't', digit(i / 1296), digit(i / 36), digit(i)]);
+                i += 1;
+                if let std::collections::btree_map::Entry::Vacant(e) = disk.tables.entry(tag) {
+                    e.insert(body.clone());
+                    added += 1;
+                }
+            }
+            Ok(())
+        }
         Surgery::InstallAliasedLists { table, glyph, scripts, langsys, features, frecs, lookups, default_langsys } => {
             let n = num_glyphs(disk)?;
             if *glyph >= n || (table != "GSUB" && table != "GPOS") {
